@@ -526,15 +526,26 @@ impl_ind!(Maximum, scalar: yes, period: yes, mult: no, out: |o| Out::one(o));
 impl_ind!(BollingerBands, scalar: yes, period: yes, mult: yes, out: |o| Out::three(o.average, o.upper, o.lower));
 impl_ind!(TrueRange, scalar: yes, period: no, mult: no, out: |o| Out::one(o));
 impl_ind!(AverageTrueRange, scalar: yes, period: yes, mult: no, out: |o| Out::one(o));
-impl_ind!(MovingAverageConvergenceDivergence, scalar: yes, period: no, mult: no, out: |o| Out::three(o.macd, o.signal, o.histogram));
+/// The documented tuple conversions (MACD, PPO, CE) are exercised on every output: the tuple must
+/// carry the same bits as the named fields (a mismatch panics inside the guarded call and is
+/// reported as a failed client call).
+fn same3(t: (f64, f64, f64), a: f64, b: f64, c: f64) -> Out {
+    assert!(t.0.to_bits() == a.to_bits() && t.1.to_bits() == b.to_bits() && t.2.to_bits() == c.to_bits(), "tuple conversion differs from the output struct's fields");
+    Out::three(a, b, c)
+}
+fn same2(t: (f64, f64), a: f64, b: f64) -> Out {
+    assert!(t.0.to_bits() == a.to_bits() && t.1.to_bits() == b.to_bits(), "tuple conversion differs from the output struct's fields");
+    Out::two(a, b)
+}
+impl_ind!(MovingAverageConvergenceDivergence, scalar: yes, period: no, mult: no, out: |o| same3(o.clone().into(), o.macd, o.signal, o.histogram));
 impl_ind!(KeltnerChannel, scalar: yes, period: yes, mult: yes, out: |o| Out::three(o.average, o.upper, o.lower));
-impl_ind!(ChandelierExit, scalar: no, period: yes, mult: yes, out: |o| Out::two(o.long, o.short));
+impl_ind!(ChandelierExit, scalar: no, period: yes, mult: yes, out: |o| same2(o.clone().into(), o.long, o.short));
 impl_ind!(RelativeStrengthIndex, scalar: yes, period: yes, mult: no, out: |o| Out::one(o));
 impl_ind!(FastStochastic, scalar: yes, period: yes, mult: no, out: |o| Out::one(o));
 impl_ind!(SlowStochastic, scalar: yes, period: no, mult: no, out: |o| Out::one(o));
 impl_ind!(RateOfChange, scalar: yes, period: yes, mult: no, out: |o| Out::one(o));
 impl_ind!(EfficiencyRatio, scalar: yes, period: yes, mult: no, out: |o| Out::one(o));
-impl_ind!(PercentagePriceOscillator, scalar: yes, period: no, mult: no, out: |o| Out::three(o.ppo, o.signal, o.histogram));
+impl_ind!(PercentagePriceOscillator, scalar: yes, period: no, mult: no, out: |o| same3(o.clone().into(), o.ppo, o.signal, o.histogram));
 impl_ind!(CommodityChannelIndex, scalar: no, period: yes, mult: no, out: |o| Out::one(o));
 impl_ind!(MoneyFlowIndex, scalar: no, period: yes, mult: no, out: |o| Out::one(o));
 impl_ind!(OnBalanceVolume, scalar: no, period: no, mult: no, out: |o| Out::one(o));
